@@ -20,7 +20,7 @@ Accept(r) ==
 Init == l = 1 /\ bad = <<>>
 Next == /\ l <= Len(Recs) /\ l' = l + 1
         /\ LET r == Recs[l] IN
-           bad' = IF Accept(r) THEN bad
+           bad' = IF r.panic = "" /\ Accept(r) THEN bad
                   ELSE Append(bad, [line |-> l,
                                     exp |-> IF r.arg.mode = "roundtrip"
                                             THEN [total |-> "ok", u1 |-> UnmarshalSpec(r.in), err |-> "nil", struct |-> Struct(r.in),
